@@ -52,7 +52,7 @@ class Ctx:
 
     # ---- model checking -------------------------------------------------
     def mc(self, module, cfg, *, workers=10, timeout=900, simulate=None, depth=None, env=None,
-           expect_violation=False, xmx="8g"):
+           expect_violation=False, xmx="5g"):
         vec_out = os.path.join(self.work, f"{module}.{len(self.cmds)}.vec.ndjson")
         r = tlc.run_tlc(module, cfg, self.work, workers=workers, timeout=timeout, simulate=simulate,
                         depth=depth, seed=self.seed if simulate else None, env=env, vec_out=vec_out, xmx=xmx)
